@@ -421,10 +421,10 @@ def worker(job):
 
 
 CORPUS = [
-    dict(backend='dict', program=[['create', 'a\nb'], ['create', 'abc'], ['create', 'abc\n'], ['list', '', '*'], ['list', '', 'abc'], ['list', '', 'a%'], ['create', 'x/y/z'], ['list', '', 'x/%'],
+    dict(backend='dict', program=[['create', 'INBOX/sub'], ['create', 'a\nb'], ['create', 'abc'], ['create', 'abc\n'], ['list', '', '*'], ['list', '', 'abc'], ['list', '', 'a%'], ['create', 'x/y/z'], ['list', '', 'x/%'],
                                   ['list', '', '%/%/%'], ['rename', 'x', 'w'], ['list', '', '*'], ['rename', 'INBOX', 'old'], ['list', '', '*'], ['create', 'inbox'], ['delete', 'Inbox'],
                                   ['rename', 'abc', 'INBOX'], ['create', 'abc'], ['delete', 'nope'], ['subscribe', 'abc'], ['subscribe', 'gone'], ['unsubscribe', 'INBOX'], ['lsub', '', '*']],
-         universe=['INBOX', 'a\nb', 'abc', 'abc\n', 'x', 'x/y', 'x/y/z', 'w', 'w/y', 'w/y/z', 'old', 'nope', 'gone']),
+         universe=['INBOX', 'INBOX/sub', 'old/sub', 'a\nb', 'abc', 'abc\n', 'x', 'x/y', 'x/y/z', 'w', 'w/y', 'w/y/z', 'old', 'nope', 'gone']),
     dict(backend='maildir', program=[['create', 'foo'], ['create', 'foo'], ['rename', 'nope', 'other'], ['rename', 'foo', 'bar'], ['create', 'bar/baz'], ['list', '', '*'], ['delete', 'bar'],
                                      ['rename', 'INBOX', 'old'], ['create', '.'], ['create', '..'], ['create', 'a//b'], ['create', ''], ['delete', '.'], ['list', '', '*']],
          universe=['INBOX', 'foo', 'bar', 'bar/baz', 'nope', 'other', 'old', '.', '..', 'a//b', 'a', 'a/', '']),
